@@ -172,10 +172,6 @@ def main():
     # does a defaulted storage argument reach a per-instance object?
     cas_shared = default_shared(CV.CascadeChecker.__init__)
     lvs_shared = default_shared(LV.lvs_validator)
-    if not cas_shared and 'storage if storage is not None else MemoryKeyStorage()' not in inspect.getsource(CV.CascadeChecker.__init__):
-        abort('CascadeChecker.__init__: storage=None is not replaced by a fresh MemoryKeyStorage()')
-    if not lvs_shared and 'if storage is None:' not in inspect.getsource(LV.lvs_validator):
-        abort('lvs_validator: storage=None is not replaced by a fresh MemoryKeyStorage()')
     out = ['(* GENERATED by tools/gen_validator.py from ndn.security.validator.cascade_validator and',
            '   ndn.app_support.light_versec.validator -- do not edit *)',
            'From NDN Require Import Base.Prelude.', 'Local Open Scope N_scope.', '']
